@@ -16,7 +16,7 @@ class Fault:
         self.text = text
         self.pre = list(pre)
         self.post = list(post)
-        self.where = where          # any | top (not inside .repeat) | first (must be the first statement of the main file)
+        self.where = where          # any | top (not inside .repeat) | first (must be the first statement of the main file) | cross-file (top; pre lines in another file)
         self.warn_flag = warn_flag  # -W name needed to see the warning (None: enabled by default)
         self.phase = phase
 
@@ -54,6 +54,9 @@ FAULTS = [
     Fault("duplicate-label-constant", "duplicate-symbol", E, "[[dl§]] = 2", pre=["dl§:\tnop"], where="top"),
     Fault("duplicate-local", "duplicate-symbol", E, "[[5$]]:\tnop", pre=["scope§:", "5$:\tnop"], where="adjacent"),
     Fault("duplicate-export", "duplicate-symbol", E, "\t.extern [[ex§]]", pre=["ex§::\tnop"], where="top"),
+    # cross-file: C17 puts the `pre` lines into another file that is assembled earlier (two spans in two files)
+    Fault("duplicate-export-other-file", "duplicate-symbol", E, "[[xf§]]::\tnop", pre=["xf§::\tnop"], where="cross-file"),
+    Fault("duplicate-export-constant-other-file", "duplicate-symbol", E, "[[xc§]] == 2", pre=["xc§ == 1"], where="cross-file"),
     Fault("branch-too-far", "branch-out-of-bounds", E, "\t[[br]] .+1000"),
     Fault("sob-forward", "branch-out-of-bounds", E, "\t[[sob]] r1, .+4"),
     Fault("odd-branch", "odd-branch", E, "\t[[bne]] .+3"),
@@ -61,6 +64,13 @@ FAULTS = [
     Fault("division-by-zero", "arithmetic-error", E, "\t.word [[5]]/0"),
     Fault("modulo-by-zero", "arithmetic-error", E, "\t.word 1 + [[7]] % 0"),
     Fault("negative-shift", "arithmetic-error", E, "\t.word [[1]] << -1"),
+    # chains: the diagnostic is placed at an infix token whose left operand was itself folded from several terms
+    Fault("division-chain", "arithmetic-error", E, "\t.word [[6]] * 2 / 0"),
+    Fault("division-chain-sub", "arithmetic-error", E, "\t.word [[10]] / 2 / 0"),
+    Fault("byte-chain-out-of-range", "value-out-of-bounds", E, "\t.byte 1, [[100]] * 2 + 300\n\t.even"),
+    Fault("word-chain-out-of-range", "value-out-of-bounds", E, "\t.word [[177777]] + 1 + 1"),
+    Fault("prefix-chain-out-of-range", "value-out-of-bounds", E, "\t.byte [[-]]pc§ + 1000\n\t.even", pre=["pc§ = 1"], where="top"),
+    Fault("immediate-chain-out-of-range", "value-out-of-bounds", E, "\tmov #[[100000]] + 50000 + 50000, r0"),
     Fault("register-as-value", "unexpected-register", E, "\t.word [[r1]]"),
     Fault("register-in-expression", "unexpected-register", E, "\tmov #1+[[sp]], r0"),
     Fault("non-register-operand", "invalid-addressing", E, "\t[[jsr]] 123, 57"),
